@@ -60,6 +60,7 @@ func runC03(c *Ctx) {
 	R.Rule("C03.R4", "whitespace rejection: all three tests Contains(url, \" \"|\"\\t\"|\"\\n\") exist and acceptance implies none of them held unless the value has the data: prefix")
 	R.Rule("C03.R5", "rewriter must-pass: at src positions, when a src rewriter is installed, the kept value is parsed.String() after the rewriter was called on parsed")
 	R.Rule("C03.R6", "options that imply URL checking store true into requireParseableURLs (directly or through a callee that does) before every return")
+	R.Rule("C03.R7", "the custom check stays decisive: the per-scheme policy lists hold only what AllowURLSchemeWithCustomPolicy was given — every other update of the scheme table stores the empty list — and a check the library itself registers (AllowDataURIImages) can return false; a library-registered check that returns true on every path would approve every URL of its scheme whatever check the user adds")
 	R.Assume(TrustGo, "net/url.Parse/URL.String contract; that the scheme net/url extracts is the scheme a browser resolves (WHATWG URL) is NOT decided", "custom URL policies and rewriters are pure")
 	var spec urlSpec
 	if err := c.Spec("url_positions.json", &spec); err != nil {
@@ -70,6 +71,100 @@ func runC03(c *Ctx) {
 	c03ValidURL(c, F)
 	c03Positions(c, F, &spec)
 	c03Options(c, F, &spec)
+	c03CustomDecisive(c, F)
+}
+
+// alwaysTrue: fn has at least one return and every return yields the constant true.
+func alwaysTrue(fn *ssa.Function) bool {
+	n := 0
+	for _, b := range fn.Blocks {
+		r, ok := b.Instrs[len(b.Instrs)-1].(*ssa.Return)
+		if !ok {
+			continue
+		}
+		n++
+		if len(r.Results) != 1 {
+			return false
+		}
+		k, ok := r.Results[0].(*ssa.Const)
+		if !ok || k.Value == nil || k.Value.String() != "true" {
+			return false
+		}
+	}
+	return n > 0
+}
+
+func c03CustomDecisive(c *Ctx, F *model.Fields) {
+	R := c.R
+	field := F.Get("allowURLSchemes")
+	reg := c.P.Func(load.ModPath, "(*Policy).AllowURLSchemeWithCustomPolicy")
+	if reg == nil {
+		R.Unknown("C03.R7", "register", "(*Policy).AllowURLSchemeWithCustomPolicy", "", "not found")
+		return
+	}
+	nUpd, nCalls := 0, 0
+	for _, fn := range moduleFuncs(c.P) {
+		cnt := 0
+		for _, b := range fn.Blocks {
+			for _, in := range b.Instrs {
+				switch x := in.(type) {
+				case *ssa.MapUpdate:
+					if field == "" || model.LoadedPolicyField(x.Map) != field {
+						continue
+					}
+					nUpd++
+					cnt++
+					key := fmt.Sprintf("update:%s#%d", shortFn(fn), cnt)
+					cons := shortFn(fn) + ": update of the scheme table"
+					pos := c.P.Pos(x.Pos())
+					if k, ok := x.Value.(*ssa.Const); ok && k.IsNil() {
+						R.OK("C03.R7", key, cons, pos, "stores the empty policy list")
+						continue
+					}
+					okApp := false
+					if ap, base := model.IsAppend(x.Value); ap != nil && fn == reg {
+						if lk, ok := base.(*ssa.Lookup); ok && model.LoadedPolicyField(lk.X) == field && lk.Index == x.Key {
+							v := model.AppendedValue(ap)
+							if ct, isCT := v.(*ssa.ChangeType); isCT {
+								v = ct.X
+							}
+							if v != nil && len(fn.Params) == 3 && v == ssa.Value(fn.Params[2]) {
+								okApp = true
+							}
+						}
+					}
+					R.Check(okApp, "C03.R7", key, cons, pos, "appends the registered check to the scheme's own list", "the scheme table receives something other than the empty list or the check handed to AllowURLSchemeWithCustomPolicy")
+				case *ssa.Call:
+					if x.Common().StaticCallee() != reg || len(x.Common().Args) != 3 {
+						continue
+					}
+					nCalls++
+					cnt++
+					key := fmt.Sprintf("library-check:%s#%d", shortFn(fn), cnt)
+					cons := shortFn(fn) + ": registers a URL check of its own"
+					pos := c.P.Pos(x.Pos())
+					var target *ssa.Function
+					switch a := x.Common().Args[2].(type) {
+					case *ssa.Function:
+						target = a
+					case *ssa.MakeClosure:
+						target, _ = a.Fn.(*ssa.Function)
+					case *ssa.Parameter:
+						// forwarded from the caller's own parameter (a user value)
+						R.OK("C03.R7", key, cons, pos, "forwards its caller's check")
+						continue
+					}
+					if target == nil {
+						R.Unknown("C03.R7", key, cons, pos, "the registered check is not a function literal, a named function or a forwarded parameter")
+						continue
+					}
+					R.Check(!alwaysTrue(target), "C03.R7", key, cons, pos, "the library's own check can reject", "the library registers a check that returns true on every path: every URL of that scheme is approved whatever check the user registers for it")
+				}
+			}
+		}
+	}
+	R.Role("C03.R7", "updates of the scheme table", nUpd, 1)
+	R.Role("C03.R7", "library-registered URL checks", nCalls, 1)
 }
 
 func c03ValidURL(c *Ctx, F *model.Fields) {
